@@ -1,10 +1,12 @@
 import Ucan.Gen.ChainAllowed
+import Ucan.Props.Tie.ChainOrder
 import Ucan.Props.Tie.ChainTime
 import Ucan.Props.Tie.ChainProofs
+import Ucan.Props.Tie.ChainArgs
 /-! Regenerated-code tie for `executionAllowed` (C01–C05): the four stages run in the model's order and hand the loaded
-delegations from one to the next. `loadProofs` (it talks to the caller's loader) and `verifyArgs` (it hands the chain's
-policies to `Policy.Match`) are parameters of the regenerated code: the first theorem holds for every behaviour of
-them, the second instantiates them with the model's functions. -/
+delegations from one to the next. `loadProofs` (it talks to the caller's loader), `ToIPLD` (the conversion of the caller's
+arguments) and `matchStatement` (the statement evaluator) are parameters of the regenerated code; `verifyArgs` and
+`Policy.Match` are regenerated themselves. The second theorem instantiates the parameters with the model's functions. -/
 set_option linter.unusedSimpArgs false
 set_option linter.unusedSectionVars false
 namespace Ucan.Tie
@@ -14,18 +16,28 @@ variable {D C L A : Type} [DecidableEq D]
 
 def liftE {α} (r : Except Chain.Err α) : GoM α := r.mapError chainErr
 
+/-- the full translation of `executionAllowed` is the shell translation (`ChainOrder`) with the regenerated stages for
+its parameters: both come from the same Go function body -/
+theorem Inv_executionAllowed_is_shell {S N : Type} (now : Int)
+    (extLoad : Gen.InvTok D C → L → GoM (List (Gen.DlgTok D S)))
+    (extMS : Option S → N → (Int × Option S)) (extIPLD : A → GoM N)
+    (g : Gen.InvTok D C) (loader : L) (a : A) :
+    Gen.Inv_executionAllowed now extLoad extMS extIPLD g loader a =
+      Gen.Inv_executionAllowed_shell extLoad Gen.Inv_verifyProofs (Gen.Inv_verifyTimeBound now)
+        (Gen.Inv_verifyArgs extMS extIPLD) g loader a := rfl
+
 /-- `executionAllowed`, regenerated: load, then `verifyProofs`, then `verifyTimeBound` at the instant `now`, then
 `verifyArgs`; the first failing stage decides. The two middle stages are the model's. -/
 theorem Inv_executionAllowed_stages {X : Type} (x : X) (args : Node) (undef : D) (pol) (now : Int)
-    (extLoad : Gen.InvTok D C → L → GoM (List (Gen.DlgTok D)))
-    (extArgs : Gen.InvTok D C → List (Gen.DlgTok D) → A → GoM Unit)
+    (extLoad : Gen.InvTok D C → L → GoM (List (Gen.DlgTok D Policy.Stmt)))
+    (extIPLD : A → GoM Node)
     (g : Gen.InvTok D C) (loader : L) (a : A) (hs : g.subject ≠ undef)
     (hlen : ∀ ds, extLoad g loader = .ok ds → ds.length = g.proof.length) :
-    Gen.Inv_executionAllowed now extLoad extArgs g loader a =
+    Gen.Inv_executionAllowed now extLoad extMatch extIPLD g loader a =
       (extLoad g loader >>= fun ds =>
         liftE (Chain.verifyProofs (toInv x args g) (ds.map (toDlg undef pol))) >>= fun _ =>
         liftE (Chain.verifyTime now (toInv x args g) (ds.map (toDlg undef pol))) >>= fun _ =>
-        extArgs g ds a) := by
+        Gen.Inv_verifyArgs extMatch extIPLD g ds a) := by
   unfold Gen.Inv_executionAllowed Gen.Inv_verifyTimeBound
   cases hl : extLoad g loader with
   | error e => simp [bind, Except.bind]
@@ -39,21 +51,22 @@ theorem Inv_executionAllowed_stages {X : Type} (x : X) (args : Node) (undef : D)
       cases Chain.verifyTime now (toInv x args g) (ds.map (toDlg undef pol)) with
       | error e => simp [Except.mapError]
       | ok u =>
-        cases extArgs g ds a <;> simp [Except.mapError]
+        cases Gen.Inv_verifyArgs extMatch extIPLD g ds a <;> simp [Except.mapError]
 
-/-- with the model's `loadProofs` and `verifyArgs` for the two parameters, the regenerated `executionAllowed` IS the
+/-- with the model's `loadProofs` and statement evaluator for the parameters, the regenerated `executionAllowed` IS the
 model's `executionAllowed` (the function `C01_sound … C05_complete` are about) -/
 theorem Inv_executionAllowed_eq {X : Type} (x : X) (args : Node) (undef : D) (pol) (now : Int)
-    (extLoad : Gen.InvTok D C → L → GoM (List (Gen.DlgTok D)))
-    (extArgs : Gen.InvTok D C → List (Gen.DlgTok D) → A → GoM Unit)
-    (ldG : C → Option (Gen.DlgTok D))
+    (extLoad : Gen.InvTok D C → L → GoM (List (Gen.DlgTok D Policy.Stmt)))
+    (extIPLD : A → GoM Node)
+    (ldG : C → Option (Gen.DlgTok D Policy.Stmt))
     (g : Gen.InvTok D C) (loader : L) (a : A) (hs : g.subject ≠ undef)
     (hload : extLoad g loader =
       match g.proof.mapM ldG with
       | some ds => .ok ds
       | none => .error (chainErr .missingDelegation))
-    (hargs : ∀ ds, extArgs g ds a = liftE (Chain.verifyArgs (ds.map (toDlg undef pol)) args)) :
-    Gen.Inv_executionAllowed now extLoad extArgs g loader a =
+    (hipld : extIPLD a = .ok args)
+    (hpol : ∀ c d, ldG c = some d → d.policy = (pol d).map some) :
+    Gen.Inv_executionAllowed now extLoad extMatch extIPLD g loader a =
       liftE (Chain.executionAllowed (fun c => (ldG c).map (toDlg undef pol)) now (toInv x args g) args) := by
   have hmodel : ∀ (cs : List C),
       Chain.loadProofs (fun c => (ldG c).map (toDlg undef pol)) cs =
@@ -86,6 +99,24 @@ theorem Inv_executionAllowed_eq {X : Type} (x : X) (args : Node) (undef : D) (po
           simp [hc, hm] at h
           subst h
           simp [ih ds' hm]
+  have hmem : ∀ (cs : List C) ds, cs.mapM ldG = some ds → ∀ d ∈ ds, ∃ c, ldG c = some d := by
+    intro cs
+    induction cs with
+    | nil => intro ds h d hd; simp at h; subst h; simp at hd
+    | cons c cs ih =>
+      intro ds h d hd
+      simp only [List.mapM_cons] at h
+      cases hc : ldG c with
+      | none => simp [hc] at h
+      | some d0 =>
+        cases hm : cs.mapM ldG with
+        | none => simp [hc, hm] at h
+        | some ds' =>
+          simp [hc, hm] at h
+          subst h
+          rcases List.mem_cons.1 hd with h1 | h1
+          · exact ⟨c, by rw [hc, h1]⟩
+          · exact ih ds' hm d h1
   have hlen : ∀ ds, extLoad g loader = .ok ds → ds.length = g.proof.length := by
     intro ds h
     rw [hload] at h
@@ -95,14 +126,18 @@ theorem Inv_executionAllowed_eq {X : Type} (x : X) (args : Node) (undef : D) (po
       simp [hm] at h
       subst h
       exact hlenM _ _ hm
-  rw [Inv_executionAllowed_stages x args undef pol now extLoad extArgs g loader a hs hlen, hload]
+  rw [Inv_executionAllowed_stages x args undef pol now extLoad extIPLD g loader a hs hlen, hload]
   unfold Chain.executionAllowed
   have hprf : (toInv x args g).prf = g.proof := rfl
   rw [hprf, hmodel g.proof]
   cases hm : g.proof.mapM ldG with
   | none => simp [liftE, Except.mapError, bind, Except.bind]
   | some ds =>
-    simp only [bind, Except.bind, liftE, hargs ds]
+    have hpol' : ∀ d ∈ ds, d.policy = (pol d).map some := by
+      intro d hd
+      obtain ⟨c, hc⟩ := hmem g.proof ds hm d hd
+      exact hpol c d hc
+    simp only [bind, Except.bind, liftE, Inv_verifyArgs_eq undef pol extIPLD g ds a args (hlenM _ _ hm) hipld hpol']
     cases Chain.verifyProofs (toInv x args g) (ds.map (toDlg undef pol)) with
     | error e => simp [Except.mapError]
     | ok u =>
